@@ -5,6 +5,19 @@ NOTES = ("All checks are contract-based deductive verification with pyvc (DESIGN
          "contract, failed validation of an assumed external contract). Known findings: /verif/known_findings.json.")
 
 CLAIMS = {
+    "C15": {
+        "text": ("Proof over the numpy array algebra, for an enumeration with a symbolic number of members and inputs of any length: "
+                 "encoding integers (lists and ndarrays) either raises or yields, element by element, the input index, which lies in "
+                 "[0, n); encoding members yields their indices and refuses members of another enumeration; unsupported element types "
+                 "are refused; encode returns an already encoded array as it is and dispatches sequences / arrays to their encoders; "
+                 "decode and decode_to_str give the member / name each index designates. Two genuine defects found here (negative "
+                 "indices wrapped to 255, foreign members accepted) were repaired by fix: commits."),
+        "note": ("numpy enters through assumed contracts validated against numpy on every run (mask indexing, astype(uint8) = mod 256, "
+                 "fancy indexing). Encoding by member NAME (isin / argsort / searchsorted on string arrays) is not under contract and "
+                 "the enum metaclass that builds the tables is modelled, not verified: both are listed as not decided."),
+        "technique": "contract-based deductive verification (symbolic execution over a numpy array algebra + SMT)",
+        "design_ref": "DESIGN.md section 4 C15, section 2.6",
+    },
     "C01": {
         "text": ("Proof of the engine's evaluation contracts on the real code: Simulation._calculate (a stored value wins over the "
                  "formula; otherwise cycle check, formula, default when there is no result, cast, store, return, each once and in "
